@@ -38,8 +38,13 @@ inductive Mode where
 
 /-- Which store the message handler of a *simulated* transaction is given.
 `asis`: `txContext` = `CopyStore()` of the raw root multistore (the code as it is);
-`fixed`: a cache-wrapped multistore that is never written, on a context that bypasses the
-node-local caches (the repair in `fixes/C11-simulate-cache.patch`). -/
+`fixed`: a cache-wrapped multistore that is never written, on a context marked "previous"
+(/repo 3ee4649 = `fixes/C11-simulate-cache.patch`): the IsPrevCtx-guarded object caches are
+bypassed, and (/repo 71bd5ef = `fixes/C11-simulate-upgrade-globals.patch`) the gov upgrade handler
+leaves the process-wide upgrade schedule (`codec.UpgradeHeight`, `OldUpgradeHeight`,
+`UpgradeFeatureMap`) alone under such a context — so nothing the *handler* does to the side state
+`G` survives a simulation; only the ante handler's side effects (cache fills against the working
+store) do.  This is the code as it is now. -/
 inductive Plumbing where
   | asis | fixed
   deriving DecidableEq, Repr
